@@ -88,12 +88,13 @@ def f2d (b : UInt32) : UInt64 :=
 
 def ext : Ext := ⟨fmtD, parseD, d2f, f2d⟩
 
-/-- Raw header text inside the scope of the card parser model: printable ASCII, and a value indicator `=` in
-    column 9 is followed by a blank (cfitsio 4 also accepts `KEY     =value`; the model's `parseCard` follows the
-    standard's `= `).  Files outside are reported as `unmodelled`. -/
+/-- Raw header text inside the scope of the card parser model: printable ASCII, and a card either is commentary,
+    or has the standard value indicator `= ` in columns 9-10, or contains no `=` at all (cfitsio 4 also takes
+    `KEY     =value` and, for a card without the indicator, the text after the first `=` anywhere as the value;
+    the model's `parseCard` follows the standard).  Files outside are reported as `unmodelled`. -/
 def rawCardOK (s : Str) : Bool :=
   s.all (fun c => 32 ≤ c.toNat && c.toNat ≤ 126)
-  && (isCommentary (trimRight (s.take 8)) || !((s.drop 8).head? == some '=' && (s.drop 9).head? != some ' '))
+  && (isCommentary (trimRight (s.take 8)) || (s.drop 8).take 2 == ['=', ' '] || !(s.drop 8).contains '=')
 
 partial def rawOK (p : Bool) (b : Bytes) : Bool :=
   if b.isEmpty then true else
